@@ -35,6 +35,8 @@ def narrowing_sites(fn, explicit_only=False, sign_conversions=True):
                 continue
             cap = capacity(nd["iw"], nd.get("is"))
             need = W.needed(inner)
+            if not sign_conversions and nd["iw"] == isrc.get("iw"):
+                continue        # same width: every bit is kept (only the reading as signed / unsigned changes)
             negative_possible = isrc.get("is") and not nd.get("is")
             if (1 << need) - 1 <= cap and not (negative_possible and sign_conversions):
                 continue
